@@ -703,10 +703,11 @@ class HooksPlugin(Plugin):
     def finish(self, mon, completed):
         specs = mon.ext.get("probe_specs", {})
         classes = {"Market": Market, "IndexMarket": IndexMarket}
-        configured = {e for s_ in mon.sessions_cfg for e in (s_.get("events") or [])}
+        configured = Counter(e for s_ in mon.sessions_cfg for e in (s_.get("events") or []))
         for name, spec in specs.items():
             if name not in configured:
                 continue  # a probe spec without a configured event (e.g. after minimisation)
+            n_inst = configured[name]  # an entry listed in several sessions gives one instance per listing
             per: Dict[Tuple[str, bool], Counter] = {}
             for h in spec.get("hooks", []):
                 key = (h["kind"], bool(h["before"]))
@@ -729,7 +730,7 @@ class HooksPlugin(Plugin):
                                 continue
                         if h.get("inst") and self.name2market[h["inst"]] is not mk:
                             continue
-                    cnt[(t, mid)] += 1
+                    cnt[(t, mid)] += n_inst
             kinds = set(per.keys()) | {(k[1], k[2]) for k in self.calls if k[0] == name}
             for key in sorted(kinds):
                 want = +per.get(key, Counter())
